@@ -17,8 +17,12 @@ from pathlib import Path
 from . import findings
 from .common import VERIF, seed
 
-EVID = VERIF / "evidence"
-REPLAYS = VERIF / "replays"
+# A run against another tree than /repo (VERIF_REPO=<scratch worktree>: the evaluation of a seeded change) must not
+# overwrite the evidence and the replay files of /repo: they go to a scratch directory outside /verif.
+_OTHER_TREE = os.environ.get("VERIF_REPO") not in (None, "", "/repo")
+_OUT = Path(os.environ.get("VERIF_OUT") or (f"/tmp/verif-out-{os.getuid()}" if _OTHER_TREE else VERIF))
+EVID = _OUT / "evidence"
+REPLAYS = _OUT / "replays"
 
 
 class Report:
@@ -41,7 +45,7 @@ class Report:
         self._viol: list = []
         self._known_seen: dict = {}
         self._known = findings.load(pid)
-        REPLAYS.mkdir(exist_ok=True)
+        REPLAYS.mkdir(parents=True, exist_ok=True)
         for old in REPLAYS.glob(f"{pid}-*.json"):  # replay files of the previous run of this property
             old.unlink()
 
@@ -81,8 +85,8 @@ class Report:
 
     # ---- the end ------------------------------------------------------
     def finish(self) -> int:
-        EVID.mkdir(exist_ok=True)
-        REPLAYS.mkdir(exist_ok=True)
+        EVID.mkdir(parents=True, exist_ok=True)
+        REPLAYS.mkdir(parents=True, exist_ok=True)
         for k, d in sorted(self._known_seen.items()):
             print(f"KNOWN-FINDING: property={self.pid} {d['entry']['what']} [key={k}; seen {d['count']}x]", flush=True)
         seen_keys = set()
